@@ -386,6 +386,87 @@ async def slow_hook_scenario(hook_time, probe_after):
         cm.time = old
 
 
+def reconnect_sweep_scenario(ttl, outage):
+    """across a reconnect: a submit_sm stays unanswered, the connection is lost, the SMSC is unreachable for `outage` seconds; the first
+    request the ESME sends after the time-to-live has elapsed is the bind request of the new session (keep-alive far away)"""
+    import struct
+    from harness import vsess, smppref
+    from aiosmpplib.correlator import SimpleCorrelator
+    from aiosmpplib.protocol import SubmitSm
+    from aiosmpplib.state import PhoneNumber
+    from aiosmpplib.retrytimer import SimpleExponentialBackoff
+    loop = vsess.VLoop()
+    asyncio.set_event_loop(loop)
+    smsc = vsess.FakeSMSC(loop)
+    undo = vsess.install(loop, smsc)
+    obs = {'requests': [], 'timeouts': []}
+    try:
+        esme, hook = vsess.quiet_esme(enquire_link_interval=500.0, socket_timeout=4.0, correlator=SimpleCorrelator('c14', max_ttl_response=float(ttl)),
+                                      retry_timer=SimpleExponentialBackoff(500, 2))
+        t_down = {}
+
+        def on_connect(_s, n):
+            if 't' in t_down and loop.time() < t_down['t'] + outage:
+                return ConnectionRefusedError('SMSC is down')
+            return 'accept'
+        smsc.on_connect = on_connect
+
+        def on_pdu(conn, pdu):
+            for p in vsess.split_pdus(pdu)[0]:
+                cmd, seq = struct.unpack('>I', p[4:8])[0], struct.unpack('>I', p[12:16])[0]
+                if cmd < 0x80000000:
+                    obs['requests'].append((loop.time(), conn.index, cmd, seq))
+                if cmd in (1, 2, 9):
+                    conn.send(vsess.bind_resp_for(p))
+                elif cmd == 4 and conn.index == 0:
+                    t_down['t'] = loop.time() + 0.5
+                    conn.reset(delay=0.5)                 # never answered; the connection goes half a second later
+        smsc.on_pdu = on_pdu
+
+        def egate(m, err):
+            if isinstance(m, SubmitSm):
+                obs['timeouts'].append((loop.time(), m.log_id, type(err).__name__))
+            return None
+        hook.error_gate = egate
+
+        async def main():
+            t = asyncio.create_task(esme.start())
+            await asyncio.sleep(1.0)
+            await esme.broker.enqueue(SubmitSm(short_message='m', source=PhoneNumber('1'), destination=PhoneNumber('2'), log_id='LOGR'))
+            await asyncio.sleep(float(ttl) + outage + 30.0)
+            obs['start_done'] = t.done()
+            if not t.done():
+                t.cancel()
+                try:
+                    await t
+                except BaseException:  # noqa: BLE001
+                    pass
+        loop.run_until_complete(main())
+    finally:
+        undo()
+        vsess.finish(loop)
+    return obs
+
+
+def oracle_reconnect_sweep(obs, ttl):
+    sent = [t for t, _c, cmd, _s in obs['requests'] if cmd == 4]
+    if not sent:
+        return 'the submit_sm was never written'
+    t_sent = sent[0]
+    later = [t for t, _c, cmd, _s in obs['requests'] if t > t_sent + float(ttl)]
+    to = [t for t, lid, kind in obs['timeouts'] if lid == 'LOGR' and kind == 'TimeoutError']
+    early = [t for t in to if not t - t_sent > float(ttl)]
+    if early:
+        return f'the unanswered submit_sm written at t={t_sent:.2f} was reported as timed out at t={early[0]:.2f} (ttl {ttl})'
+    if len(to) > 1:
+        return f'the unanswered submit_sm was reported as timed out {len(to)} times'
+    if later and (not to or to[0] > later[0] + 0.5):
+        return (f'the unanswered submit_sm written at t={t_sent:.2f} (ttl {ttl}) was '
+                + (f'reported as timed out only at t={to[0]:.2f}' if to else 'never reported as timed out')
+                + f' although the ESME sent a request (the bind of the new session) at t={later[0]:.2f}')
+    return None
+
+
 def run(ctx):
     ctx.rule = ('seeded scripts of put/get calls by three concurrent tasks on the real SimpleCorrelator with a send_error hook that suspends '
                 '(scripted clock; TTL boundaries ttl/2, ttl+1/1024), plain/segmented SubmitSm, enquire_link, responses ok/error/nack/unknown, '
@@ -447,6 +528,13 @@ def run(ctx):
                 ctx.violation(f'a submit_sm was reported as timed out {after} s after it was written (ttl {ttl} s); its sending hook had taken {hook_time} s', rp)
             if after is None and frac * ttl0 > ttl:
                 ctx.violation(f'an unanswered submit_sm was not reported by the first request sent {frac * ttl0} s after it was written (ttl {ttl} s)', rp)
+    for ttl, outage in ((3.0, 6.0), (3.0, 1.0), (10.0, 14.0)) + (((5.0, 20.0), (2.0, 3.0)) if ctx.thorough else ()):
+        obs = reconnect_sweep_scenario(ttl, outage)
+        ctx.traces += 1
+        ctx.case(('reconnect_sweep', ttl, outage), nontrivial=True)
+        msg = oracle_reconnect_sweep(obs, ttl)
+        if msg:
+            ctx.violation(msg, {'function': 'reconnect_sweep', 'ttl': ttl, 'outage': outage})
     for y in (False, True):
         lid, na, nb = asyncio.run(sweep_hook_scenario(y))
         ctx.traces += 1
@@ -486,6 +574,13 @@ def replay(ctx, path):
         after, ttl = asyncio.run(slow_hook_scenario(rp['sending_hook_seconds'], rp['probe_after_write_seconds']))
         print(f'replay: time-out reported {after} s after the write (ttl {ttl} s)')
         return 1 if (after is not None and not after > ttl) or (after is None and rp['probe_after_write_seconds'] > ttl) else 0
+    if fn == 'reconnect_sweep':
+        obs = reconnect_sweep_scenario(rp['ttl'], rp['outage'])
+        print('replay: requests written (time, connection, command):', [(round(t, 2), c, hex(cmd)) for t, c, cmd, _s in obs['requests']])
+        print('replay: send_error calls:', obs['timeouts'])
+        msg = oracle_reconnect_sweep(obs, rp['ttl'])
+        print('replay:', msg or 'property holds on this input')
+        return 1 if msg else 0
     if fn == 'script':
         ttl = Fraction(rp['ttl'])
 
